@@ -39,13 +39,22 @@ type PSpecJ struct {
 	// Default is the spec's default in decoded-JSON form (string, float64, bool, []interface{}); optional parameters only.
 	// The Lean binder answers `absent` ("the default stays"): the harness then demands exactly this value.
 	Default interface{} `json:"-"`
+	// Format: a string format (strfmt type). The Lean binder reads such a parameter as a string: only the absent case (default)
+	// and one valid value are sent for it.
+	Format string `json:"-"`
 }
+
+// one valid value per string format used by the fixed formatted parameters
+var c03FormatValues = map[string]string{"uuid": "a8098c1a-f86e-11da-bd1a-00112444be1e", "email": "a@b.example", "hostname": "h.example", "date": "2020-01-02", "uri": "http://u.example/x"}
 
 func ip(v int) *int       { return &v }
 func i64p(v int64) *int64 { return &v }
 
 func (p *PSpecJ) scalarSchema() map[string]interface{} {
 	m := map[string]interface{}{}
+	if p.Format != "" {
+		m["format"] = p.Format
+	}
 	switch p.Ty {
 	case "str":
 		m["type"] = "string"
@@ -205,6 +214,9 @@ func genPSpec(r *rng.R, name, in string) *PSpecJ {
 // validPool lists scalar texts that satisfy every item-level constraint of the parameter.
 func (p *PSpecJ) validPool() []string {
 	var out []string
+	if p.Format != "" {
+		return []string{c03FormatValues[p.Format]}
+	}
 	switch p.Ty {
 	case "bool":
 		return []string{"true", "false"}
@@ -284,6 +296,9 @@ func sepFor(cf string) string {
 
 // raw values to try for a parameter: nil = key absent
 func (p *PSpecJ) probes(r *rng.R) [][]string {
+	if p.Format != "" {
+		return [][]string{nil, {c03FormatValues[p.Format]}}
+	}
 	sep := sepFor(p.CF)
 	out := [][]string{nil, {""}, p.validRaw(), append([]string{"zzz"}, p.validRaw()...)}
 	scal := []string{"a", "ab", "abcdefgh", "0", "1", "7", "-1", "15", "16", "2147483648", "9223372036854775808", "+3", "1.5", "x1", " 3", "true", "TRUE", "no", "maybe", "é", "b",
@@ -487,6 +502,9 @@ func CheckC03(run *ev.Run) {
 			for _, p := range []*PSpecJ{
 				{Name: fmt.Sprintf("p%d8", oi), In: o.in, Ty: "str", IsArray: true, CF: "csv", Default: []interface{}{"a[1]", "b}c", "{x", "p]q", "plain"}},
 				{Name: fmt.Sprintf("p%d9", oi), In: o.in, Ty: "str", Default: []string{"q\"r[0]", "}{", "a,b"}[(si+oi)%3]},
+				// strfmt-typed parameters with defaults: one string-kind type (uuid / email / hostname / uri) and one struct-kind type (date)
+				{Name: fmt.Sprintf("p%d6", oi), In: o.in, Ty: "str", Format: []string{"uuid", "email", "hostname", "uri"}[(si+oi)%4], Default: c03FormatValues[[]string{"uuid", "email", "hostname", "uri"}[(si+oi)%4]]},
+				{Name: fmt.Sprintf("p%d7", oi), In: o.in, Ty: "str", Format: "date", Default: "2020-01-02"},
 			} {
 				o.ps = append(o.ps, p)
 				params = append(params, p.render())
